@@ -14,7 +14,7 @@ from ..common import Result, sut, digest
 
 ID = "C07"
 RULE = ("random configurations: overall degree function from gcmpy's own distributions or a random positive table "
-        "(occasionally with zeros), 1..4 clique topologies, probability vectors on the simplex with probs[0]>0 "
+        "(occasionally with zeros) or, in 12%, a degree function doing exact integer arithmetic (poisson with an int mean, binomial weights; range width 22..36), 1..4 clique topologies, probability vectors on the simplex with probs[0]>0 "
         "(zero components and one-hot included), ranges lo in 0..3, width 1..12, loader in {split, delta}, delta "
         "target inside / at both ends / outside; both construction paths; non-trivial = >=2 degrees in range and a "
         "degree with >=2 admissible splits; distinct = SHA-1 of the concrete configuration")
